@@ -88,6 +88,10 @@ def gen_case(rnd, cid, seed):
             if k["db"] == d:
                 k["scanned"] = k["id"] not in unscanned and db_passes(d, cfg["fdb_white"], cfg["fdb_black"])
                 k["passes"] = key_passes(k["name"], cfg["fkey_white"], cfg["fkey_black"])
+    if cfg["key_file"] and rnd.random() < 0.5:
+        # an empty line in the key file names a key that does not exist: it is looked up, found gone and skipped like any vanished key
+        nlines = sum(len(pg) for d in dbl for pg in d["pages"])
+        cfg["blank_at"] = sorted(rnd.sample(range(nlines), min(nlines, rnd.choice([1, 1, 2]))))
     pre = []
     if cfg["key_exists"] == "rewrite":
         for k in keys:
